@@ -31,6 +31,8 @@ type p2Case struct {
 	AutoPrune   bool          `json:"autoprune,omitempty"`  // C16: delete recovery files so that exactly as many blocks remain as slices are unfindable
 	PriorGen    int           `json:"priorgen,omitempty"`   // history inside the process: first Verify (1) or Repair (2) another generation of the same set (same names, lengths, first 16 KiB, hence the same file ids and set id; other content)
 	RecDamaged  bool          `json:"recdamaged,omitempty"` // C03: a recovery file was damaged (not as Create wrote it): Verify may refuse with an error, but a verdict must count exactly the blocks that are still intact
+	PriorBad    int           `json:"priorbad,omitempty"`   // history inside the process: right before (no Create in between) a Verify (1) / Repair (2) of a copy of the set in which one recovery packet has a wrong hash (1, 2) or the index is cut short (3: Verify)
+	Dec         *decProtoCase `json:"dec,omitempty"`        // C03: operation sequences with failing loads / interrupted Repairs on ONE Decoder object (decproto.go)
 	Stale       int           `json:"stale,omitempty"`      // beside every recovery file s.volAA+BB.par2 lies s.volAA+<BB+2>.par2 (1) / s.vol<AA-1>+<BB+1>.par2 (2), a volume of ANOTHER set (other content, other set id) whose announced range covers it
 	List        int           `json:"list,omitempty"`       // directory listing order: 0 as the filesystem returns it (sorted), 1 descending
 	DiskTwin    bool          `json:"disktwin,omitempty"`   // additionally run the same directory through the exported API on a real directory and require the same observations
@@ -103,6 +105,28 @@ func runP2(c *p2Case, r *core.Rec, cl p2Clauses) *p2Run {
 			sort.Sort(sort.Reverse(sort.StringSlice(out)))
 			return out
 		}
+	}
+	if c.PriorBad != 0 {
+		bfs := s.FS0.Clone()
+		var bo scen.P2Obs
+		if c.PriorBad == 3 {
+			if b, ok := bfs.Get(s.Index); ok {
+				bfs.Put(s.Index, b[:len(b)-9])
+			}
+			s.ObserveVerify(bfs, c.G, &bo)
+		} else if len(s.RecFiles) > 0 {
+			b, _ := bfs.Get(s.RecFiles[0])
+			nb := append([]byte{}, b...)
+			nb[len(nb)-1] ^= 0x04 // last byte of the last packet's body: that packet's hash no longer matches
+			bfs.Put(s.RecFiles[0], nb)
+			bfs.Del(s.Paths[0])
+			if c.PriorBad == 2 {
+				s.ObserveRepair(bfs, c.G, false, &bo)
+			} else {
+				s.ObserveVerify(bfs, c.G, &bo)
+			}
+		}
+		r.AddTransitions(1)
 	}
 	if c.PriorGen != 0 {
 		tw := c.Cfg
